@@ -32,19 +32,8 @@ def parse_float(i):
 def parse_decimal(ii):
     if len(ii) == 0:
         return None
-    try:
-        s = ii.split(".")
-        i = int(s[0])
-        if len(s) > 1:
-            r = int(s[1])
-            r = r / (10 ** len(s[1]))
-        else:
-            r = 0
 
-        return float(i) + r
-    except Exception as e:
-        logging.debug(f"parse error on {ii}: {e}")
-        return float(ii)
+    return float(ii)
 
 
 def type_parser(type_repr):
